@@ -130,10 +130,25 @@ package internal
 
 // the file watcher (goroutines, tickers) is outside the verified subset: its contract is assumed
 //@ func (*FileWatcher).WatchFile
-//@   abstractbody
 //@   #allocates
-//@   modifies ghost Watchers
-//@   ensures  others: forall k string :: k != ReaderKey(reader) ==> Watchers[k] == old(Watchers)[k]
+//@   requires nonnil: f != nil && reader != nil && !held(addr(f.mu))
+//@   assumes  wf: f.watchers != nil && f.log != nil && forall k string :: mapHas(f.watchers, k) ==> f.watchers[k] != nil && f.watchers[k].cancel != nil
+//@   modifies mapof(f.watchers), ghost $held[addr(f.mu)]
+//@   ensures  others: forall k string :: k != ReaderKey(reader) ==> WatcherAt(f, k) == old(WatcherAt(f, k))
+//@   ensures  unlocked: !held(addr(f.mu))
+//@   ensures  wf_kept: f.watchers != nil && forall k string :: mapHas(f.watchers, k) ==> f.watchers[k] != nil && f.watchers[k].cancel != nil
+
+// starting the goroutine of a watcher has no effect of its own at the time of the call (what the
+// goroutine does later — re-reading the file, invoking the callback — is outside the contracts)
+//@ func (*watcher).start
+//@   abstractbody
+//@   lockfree
+
+//@ interface Reader method ID(self) r
+//@   pure
+//@   ensures  key: r == ReaderKey(self)
+//@ interface Reader method Read(self) (data, err)
+//@   #allocates
 
 // what identifies a reader to the file watcher
 //@ func (caFileReader).ID
@@ -146,8 +161,8 @@ package internal
 //@   requires wf: p != nil && p.log != nil && p.configs != nil && p.caWatcher != nil && config != nil && !held(addr(p.mu))
 //@   requires pool: TlsPoolInv(p)
 //@   uses L-hashbuf-injective
-//@   modifies mapof(p.configs), ghost PoolAdded, ghost HashIn, ghost $held[addr(p.mu)], ghost Watchers, above(watermark())
-//@   ensures  own_watcher: forall k string :: k != PoolID(EncOf(config)) ==> Watchers[k] == old(Watchers)[k]
+//@   modifies mapof(p.configs), ghost PoolAdded, ghost HashIn, ghost $held[addr(p.mu)], mapof(p.caWatcher.watchers), ghost $held[addr(p.caWatcher.mu)], above(watermark())
+//@   ensures  own_watcher: forall k string :: k != PoolID(EncOf(config)) ==> WatcherAt(p.caWatcher, k) == old(WatcherAt(p.caWatcher, k))
 //@   ensures  none: TlsCA(config) == "" && TlsCAFile(config) == "" && TlsSkip(config) == nil ==> result0 == nil && result1 == nil
 //@   ensures  err_nil: result1 != nil ==> result0 == nil
 //@   ensures  trust: result1 == nil && result0 != nil ==> TrustFor(result0, EncOf(config))
@@ -179,7 +194,7 @@ package internal
 //@   requires wf: p != nil && p.log != nil && p.configs != nil && p.caWatcher != nil && !held(addr(p.mu))
 //@   invariant src: TlsPoolSrc(p)
 //@   invariant distinct: TlsPoolDistinct(p)
-//@   private mapof(p.configs), ghost $held[addr(p.mu)], ghost Watchers, above(watermark())
+//@   private mapof(p.configs), ghost $held[addr(p.mu)], mapof(p.caWatcher.watchers), ghost $held[addr(p.caWatcher.mu)], above(watermark())
 
 // lock discipline (C16)
 //@ guarded field tlsConfigPool.configs by addr(this.mu)
